@@ -15,6 +15,46 @@ CLAIMED = {
   "ref": "§6 C09, §4.2", "engines": ["TLC", "krillverif"]},
 }
 
+
+KRILL_NOTE = ("Trusted: TLC; the rpki crate's decoding/validation routines used by the relying-party walk and the projection; "
+              "the projection of real state onto resource atoms and key roles. Model bounds: TA <- A <- {B,C,D}, one parent per CA, "
+              "A's holdings fixed, 2-3 resource atoms, <= 6 (quick) / 12 (thorough) API operations per behaviour in the exhaustive runs, "
+              "unbounded background tasks. Known findings (known-findings.json) are reported as KNOWN-FINDING, not as violations; "
+              "the invariants are stated for states free of them.")
+
+def krill_claim(text, ref):
+    return {
+        "technique": "TLA+ model checking of spec/Krill.tla with TLC (exhaustive, bounded); TLC-generated behaviours executed on a real in-process Krill; recorded traces (state projected from CA state, publication-server content decoded from outside, relying-party walk) validated by TLC against KrillTrace.tla",
+        "level": "model_checking", "text": text, "note": KRILL_NOTE, "ref": ref,
+        "engines": ["TLC", "krillverif"]}
+
+CLAIMED.update({
+ "C01": krill_claim(
+  "Krill.tla models CAs, delegation, key states, configured ROAs, what each CA publishes and the follow-up tasks of every change, at the grain of one API command / one background task. TLC checks exhaustively (bounded) that in every settled state the relying-party view derived from the published state is clean and the validated route origins are exactly the configured ones covered by a current certificate. The same spec judges the real code: TLC-generated behaviours (API calls interleaved with single named tasks and settle points) run on a real Krill; after every event the projected state must be exactly the successor the spec allows, every file under a key must be on its manifest and vice versa, and a relying-party walk over the real repository (rpki crate validation) must yield exactly the VRPs the spec derives and no problem in settled states.",
+  "§6 C01, §4.3"),
+ "C02": krill_claim(
+  "Same model and binding as C01. Decides: every newly issued child certificate is within entitlement and issuer certificate (step property), no published child certificate exceeds the publisher's own current certificate whenever its publication is up to date, a settle (refresh rounds + tasks to a fixed point, bounded to 8 rounds on the real code) leaves every active child with exactly the offered resources and no open request, and another round changes nothing (the harness's fixed point must be a Settled state of the spec).",
+  "§6 C02, §4.3"),
+ "C03": krill_claim(
+  "Same model and binding as C01. On the recorded traces TLC keeps, per real key, the history of every object identity (issuer key + serial) ever current under the key and requires in every state that whatever is no longer current is on that key's CRL as long as the key publishes one, that nothing current is revoked, and that manifest and CRL numbers agree; withdrawn objects are gone because the projected publication content must equal the spec's. Histories cover re-issue, ROA removal, child removal/suspension, resource loss, CA deletion and key retirement by a roll.",
+  "§6 C03, §4.3"),
+ "C04": krill_claim(
+  "Same model and binding as C01, roll-heavy behaviours: roll initiation/activation interleaved at single-task granularity with entitlement changes, suspension, ROA changes and syncs. Decides: every key in use has a certificate, staging key publishes manifest+CRL only, after activation products move to the new key in one publication (old key's products tracked separately until the next sync), activation is refused only in the two cases the spec predicts, and every settle ends in the single-active-key state or at rest in roll_new.",
+  "§6 C04, §4.3"),
+ "C13": {
+  "technique": "TLA+ decision-table model (spec/Authz.tla) checked with TLC; TLC-enumerated request cases executed against the real daemon started in-process (Unix socket and TLS); TLC (AuthzTrace.tla) judges every recorded request",
+  "level": "model_checking",
+  "text": "Authz.tla holds the reference policy (111 route x method entries with required permission and addressed CA), the role evaluation (per-CA grant wins over blanket grant, general grant for non-CA requests, login gate under /api/v1) and the public set. TLC checks the decision functions over all role shapes x credential classes x transports x testbed modes. Every generated case is one HTTP request to the real daemon (config-file users, generated roles, two CAs, publication server); TLC recomputes the verdict and compares status class, absence of effect for refused requests (state digest) and the CAs shown by listing endpoints. Thorough enumerates the whole table.",
+  "note": "Trusted: the hand-written reference table (completeness against the code checked by counting dispatch call sites only); complex roles injected into the Config object; no-effect judged on CA list, publisher list, per-CA command count, parents and children.",
+  "ref": "§6 C13, §4.5", "engines": ["TLC", "kv-http"]},
+ "C20": {
+  "technique": "TLA+ provider-chain and login-rule model (spec/Authz.tla) checked with TLC; TLC-enumerated credential rows concretised and sent to the real daemon; TLC (AuthzTrace.tla) judges every recorded request",
+  "level": "model_checking",
+  "text": "Authz.tla states who a request acts as (admin token verbatim / session issued by this instance for a configured user / mapped Unix peer / nobody) and when login succeeds. TLC checks OnlyGenuineCredentials, AdminOnlyByAdminToken, NoPeerOverTcp, foreign or stale sessions, LoginRule. 332 table rows (credential class x transport x peer mapping, login table of 20 typed names x 7 password classes) are enumerated completely in both tiers; each is concretised (truncations, bit flips, re-encodings, token of a second instance, name variants) and judged by a fingerprint of eight probe routes plus the audit actor. The token-mutation families are exploration and labelled so in the evidence.",
+  "note": "Assumed: strength of ChaCha20-Poly1305/scrypt; surrounding white space of the bearer value is not part of the credential; password comparison modulo trim+NFKC; sessions do not expire, logout is outside the property.",
+  "ref": "§6 C20, §4.5", "engines": ["TLC", "kv-http"]},
+})
+
 NOT_YET = ("not claimed yet: the specification and conformance check for this "
            "property are still under construction (DESIGN.md §12 build-out order)")
 NOT_APPLICABLE = {}
@@ -39,8 +79,18 @@ def main():
         "engines": [
             {"name": "TLC", "path": "spec/", "serves_properties": served,
              "kind_free_text": "explicit-state model checker for the TLA+ specifications in spec/*.tla (exhaustive, simulation for behaviour generation, trace validation)"},
-            {"name": "krillverif", "path": "harness/", "serves_properties": served,
-             "kind_free_text": "Rust conformance harness: executes TLC-generated behaviours on the real krill code (built with --cfg krill_verif) and records projected traces"},
+            {"name": "krillverif", "path": "harness/", "serves_properties": [p for p in served if "krillverif" in CLAIMED[p]["engines"]],
+             "kind_free_text": "Rust conformance harness: executes TLC-generated behaviours on the real krill code (built with --cfg krill_verif) and records projected traces (task queue, CA hierarchy with relying-party walk)"},
+            {"name": "kv-http", "path": "harness-http/", "serves_properties": [p for p in served if "kv-http" in CLAIMED[p]["engines"]],
+             "kind_free_text": "Rust harness that starts the real krill daemon in-process and drives it over the Unix socket and TLS"},
+            {"name": "kv-pub", "path": "harness-pub/", "serves_properties": [p for p in served if "kv-pub" in CLAIMED[p]["engines"]],
+             "kind_free_text": "Rust harness for the publication server (RFC 8181 deltas, RRDP and rsync files, file-system fault points)"},
+            {"name": "kv-store", "path": "harness-store/", "serves_properties": [p for p in served if "kv-store" in CLAIMED[p]["engines"]],
+             "kind_free_text": "Rust harness for the aggregate / WAL stores (concurrent commands with hook traces, replay/snapshot differential)"},
+            {"name": "kv-vec", "path": "harness-vec/", "serves_properties": [p for p in served if "kv-vec" in CLAIMED[p]["engines"]],
+             "kind_free_text": "Rust harness replaying TLC-enumerated decision vectors (ROA analysis, configuration validation)"},
+            {"name": "kv-auth", "path": "harness-auth/", "serves_properties": [p for p in served if "kv-auth" in CLAIMED[p]["engines"]],
+             "kind_free_text": "Rust harness for signed RFC 6492 / RFC 8181 exchanges and the TA proxy/signer exchange"},
         ],
         "checks": [],
         "not_applicable": [],
